@@ -237,4 +237,13 @@ theorem mfi_forgets (n : Nat) (hn : 0 < n) (h8 : n * 8 ≤ isizeMax) (p h : List
   rw [key (p ++ h) hv (by simp; omega), key h (fun b hb => hv b (by simp [hb])) h2,
     flows_window_suffix n p h hl]
 
+/-- non-vacuity at ℚ: ROC(2) with a 10^6 spike in the prefix; both runs end in 100·(6 − 1)/1 -/
+example :
+    lastOut (runOut RateOfChange.next (RateOfChange.fresh 2 : RateOfChange (X Rat)) ([1000000, 7, 1, 3, 6].map X.fin))
+      = some (X.fin 500) := by decide +kernel
+
+example :
+    lastOut (runOut RateOfChange.next (RateOfChange.fresh 2 : RateOfChange (X Rat)) ([1, 3, 6].map X.fin))
+      = some (X.fin 500) := by decide +kernel
+
 end TaRs.Props.C17
